@@ -1,7 +1,7 @@
 //! Shared plumbing: PRNG, escaping, JSON output, the per-run recorder and a
 //! small work-stealing thread runner. No dependency on the code under test.
 
-use std::collections::{BTreeMap, HashSet};
+use std::collections::BTreeMap;
 use std::fmt::Write as _;
 use std::hash::{Hash, Hasher};
 use std::sync::atomic::{AtomicUsize, Ordering};
@@ -225,7 +225,8 @@ pub struct Witness {
 #[derive(Default)]
 pub struct Rec {
     pub evaluations: u64,
-    pub nontrivial: HashSet<u64>,
+    /// hashes of the distinct non-trivial cases seen (deduplicated lazily)
+    pub nontrivial: Vec<u64>,
     pub hist: BTreeMap<String, u64>,
     pub samples: BTreeMap<String, Vec<String>>,
     /// signature -> (count, first witnesses)
@@ -263,7 +264,10 @@ impl Rec {
     /// a distinct non-trivial case: `key` identifies the case, `class` is its histogram bucket
     pub fn nontrivial<K: Hash, F: FnOnce() -> String>(&mut self, class: &str, key: &K, sample: F) {
         self.count(class);
-        self.nontrivial.insert(hash_of(key));
+        self.nontrivial.push(hash_of(key));
+        if self.nontrivial.len() >= (1 << 25) && self.nontrivial.len().is_power_of_two() {
+            self.compact();
+        }
         let e = self.samples.entry(class.to_string()).or_default();
         if e.len() < MAX_SAMPLES {
             e.push(sample());
@@ -301,6 +305,9 @@ impl Rec {
         } else {
             self.nontrivial.extend(o.nontrivial);
         }
+        if self.nontrivial.len() >= (1 << 27) {
+            self.compact();
+        }
         for (k, v) in o.hist {
             *self.hist.entry(k).or_insert(0) += v;
         }
@@ -328,11 +335,21 @@ impl Rec {
             self.exhaustive(n);
         }
     }
+    pub fn compact(&mut self) {
+        self.nontrivial.sort_unstable();
+        self.nontrivial.dedup();
+    }
+    /// number of distinct non-trivial cases
+    pub fn distinct(&mut self) -> usize {
+        self.compact();
+        self.nontrivial.len()
+    }
     pub fn n_violations(&self) -> u64 {
         self.violations.values().map(|v| v.0).sum()
     }
 
-    pub fn to_json(&self, property: &str, tier: &str, seed: u64, wall_s: f64) -> Json {
+    pub fn to_json(&mut self, property: &str, tier: &str, seed: u64, wall_s: f64) -> Json {
+        self.compact();
         let hist = Json::Obj(self.hist.iter().map(|(k, v)| (k.clone(), Json::Int(*v as i64))).collect());
         let mut samples = Vec::new();
         for (k, v) in &self.samples {
